@@ -220,6 +220,9 @@ pub fn soak(calls: &[Call], expected: &[String], repeats: usize) -> Option<(usiz
     soak_then_probe(calls, expected, repeats, &[], &[]).map(|(r, i, g, _)| (r, i, g))
 }
 
+/// number of leading probe calls that are also made between the phases of the soak
+const INTER: usize = 40;
+
 /// The soak, followed on the same thread and interpreters by `probe` calls once each (state built up
 /// by a long monotone history must not change what other calls give). The last field tells whether the
 /// mismatch was found in the probe part.
@@ -233,11 +236,23 @@ pub fn soak_then_probe(
     std::thread::scope(|sc| {
         sc.spawn(|| {
             let ls = crate::pools::Langs::new();
+            // the first `INTER` probe calls are also made after every phase (whatever a long monotone
+            // history of one call leaves behind must not change what the next, different call gives)
+            let inter = probe.len().min(INTER);
             for (i, c) in calls.iter().enumerate() {
                 for r in 0..repeats {
                     let got = exec_call(&ls, c, false);
                     if got != expected[i] {
                         return Some((r, i, got, false));
+                    }
+                }
+                if repeats > 0 {
+                    for (k, pc) in probe[..inter].iter().enumerate() {
+                        let got = exec_call(&ls, pc, false);
+                        if got != probe_expected[k] {
+                            // report as a probe mismatch after phase i
+                            return Some((i + 1, k, got, true));
+                        }
                     }
                 }
             }
@@ -679,14 +694,39 @@ pub fn run_c14(cfg: &BatchCfg, corpus_size: usize, pristine_sample: usize) -> i3
     let soak_repeats = 66_000usize;
     let mut soak_hit: Option<(usize, usize, String)> = None;
     let mut soak_probe: Option<(Call, String)> = None;
+    let mut soak_phases: usize = usize::MAX;
     if silence_hit.is_none() && direct_mismatch.is_none() {
         // probe afterwards with the systematic families (first part of the corpus), crash-free calls only
         let probe_idx: Vec<usize> = (0..calls.len().min(1500)).filter(|&i| calls[i].crash_at == 0).collect();
-        let probe_c: Vec<Call> = probe_idx.iter().map(|&i| calls[i].clone()).collect();
-        let probe_e: Vec<String> = probe_idx.iter().map(|&i| expected[i].clone()).collect();
+        let mut probe_c: Vec<Call> = vec![];
+        let mut probe_e: Vec<String> = vec![];
+        // first: compounds, composites and hundreds of every language as single-word calls (made between
+        // the phases too); their pristine results come from fresh processes
+        if let Ok(exe) = std::env::current_exe() {
+            for lang in 0..7usize {
+                let pool = &crate::pools::POOLS[lang];
+                let words: Vec<&str> = pool.composite.iter().take(4).chain(pool.hundreds.iter().take(2)).chain(pool.ordinals.iter().take(1)).copied().collect();
+                for w in words {
+                    if probe_c.len() >= INTER {
+                        break;
+                    }
+                    let c = Call { lang, concrete: lang % 2 == 0, op: Op::T2d { text: w.to_string() }, crash_at: 0, reenter: 0, during_unwind: false };
+                    if let Ok((r, None)) = call_in_child(&exe, &serde_json::to_string(&c).unwrap_or_default(), "C", "UTC") {
+                        probe_c.push(c);
+                        probe_e.push(r);
+                    }
+                }
+            }
+        }
+        probe_c.extend(probe_idx.iter().map(|&i| calls[i].clone()));
+        probe_e.extend(probe_idx.iter().map(|&i| expected[i].clone()));
         if let Some((r, i, got, in_probe)) = soak_then_probe(&soak_c, &soak_e, soak_repeats, &probe_c, &probe_e) {
             if in_probe {
                 soak_probe = Some((probe_c[i].clone(), probe_e[i].clone()));
+                if r > 0 {
+                    // found between phases: only the first r phases are needed to reproduce it
+                    soak_phases = r;
+                }
             }
             soak_hit = Some((r, i, got));
         }
@@ -776,7 +816,7 @@ pub fn run_c14(cfg: &BatchCfg, corpus_size: usize, pristine_sample: usize) -> i3
             );
             let path = replay_dir().join(format!("C14-{}-soak-probe.json", cfg.seed));
             let doc = json!({"property":"C14","oracle":"H1-history-independence","detail":detail,
-                "soak": {"calls": soak_c, "expected": soak_e, "repeats": hi, "probe": [pc], "probe_expected": [pe]},
+                "soak": {"calls": &soak_c[..soak_phases.min(soak_c.len())], "expected": &soak_e[..soak_phases.min(soak_e.len())], "repeats": hi, "probe": [pc], "probe_expected": [pe]},
                 "case": single_call_case(pc, pe)});
             let _ = std::fs::write(&path, serde_json::to_string_pretty(&doc).unwrap());
             return match confirm_in_child(&path, "H1-history-independence") {
